@@ -806,3 +806,36 @@ def r_smt_tracked(ctx):
 
 
 C16_RULES.append(r_smt_tracked)
+
+
+def r_ticks_on_the_gantt_axes(ctx):
+    """'bars are drawn at the right place, with and without calendar times': the calendar tick labels belong to the axes the bars are
+    drawn on.  matplotlib's `plt.xticks` / `plt.xlabel` ... act on pyplot's *current* axes (trusted library fact): after
+    `plt.subplots(2, 1)` that is the last one created - the buffer chart - so with a buffer in the solution the Gantt axis keeps bare
+    integers and the times label the buffer plot.  Decided on the IR of the renderer: on the paths with a buffer sub-plot, the
+    tick labels are set through the Gantt axes object, not through the pyplot state machine."""
+    where = "plotter.render_gantt_matplotlib"
+    n = 0
+    bad = {}
+    for run in live_runs(ctx, GANTT, "R-GANTT-TICKS"):
+        dec = dict(run.decisions)
+        with_buffers = any("solution.buffers" in k and v is True for k, v in run.decisions)
+        calendar = any("delta_time is None" in k and v is False for k, v in run.decisions)
+        if not (with_buffers and calendar):
+            continue
+        n += 1
+        for ev in run.events_of("call"):
+            nm = ev.data["name"]
+            if nm.split(".")[-1] in ("xticks", "xlabel", "xlim") and "pyplot" in nm or nm in ("plt.xticks", "plt.xlabel", "plt.xlim"):
+                bad.setdefault(nm, ev.site.lineno)
+    for nm, line in sorted(bad.items()):
+        ctx.violation("R-GANTT-TICKS", where, f"calendar ticks set through {nm.split('.')[-1]} of the pyplot state machine",
+                      f"`{nm}(...)` acts on pyplot's current axes; with a buffer in the solution the figure was created by "
+                      f"plt.subplots(2, 1) and the current axes is the buffer chart: the calendar labels land on the buffer plot and the "
+                      f"Gantt axis shows bare integers", f"processscheduler/plotter.py:{line}")
+    ctx.floor("R-GANTT-TICKS", "renderer paths with buffers and calendar times", n, 1)
+    if not bad:
+        ctx.ok("R-GANTT-TICKS", f"{where}: with buffers, the calendar ticks are set on the Gantt axes object")
+
+
+C17_RULES.append(r_ticks_on_the_gantt_axes)
